@@ -142,7 +142,25 @@ func c17a(c *Ctx) {
 									var leaves []ssa.Value
 									phiLeaves(res, map[ssa.Value]bool{}, &leaves)
 									for _, lf := range leaves {
-										if ri, isI := lf.(ssa.Instruction); isI && body[ri.Block()] {
+										// made in the loop body, or afterwards out of something made there
+										var derives func(v ssa.Value, depth int) bool
+										derives = func(v ssa.Value, depth int) bool {
+											ri, isI := v.(ssa.Instruction)
+											if !isI || depth > 5 {
+												return false
+											}
+											if ri.Block() != nil && body[ri.Block()] {
+												return true
+											}
+											var ops []*ssa.Value
+											for _, op := range ri.Operands(ops) {
+												if *op != nil && derives(*op, depth+1) {
+													return true
+												}
+											}
+											return false
+										}
+										if derives(lf, 0) {
 											bad = "is left early with " + c.term(fn, lf) + ", made from the element at hand, as the result (with several such elements, which one is reported depends on the iteration order)"
 										}
 									}
